@@ -39,6 +39,13 @@
 //                                 kinds: {free,delete,delarr,realloc}_bogus (never allocated), new_free malloc_delete
 //                                 new_delarr newarr_delete new_realloc newarr_realloc newarr_free malloc_delarr (allocator
 //                                 mismatch), corrupt_{free,delete,delarr,realloc} (guard bytes overrun)
+//   misuse <kind> junit           the same misuse, but raised inside a nested real test (ExecFunctionTestShell::runOneTest) whose
+//                                 TestResult writes to a REAL JUnitTestOutput (file seams stubbed): JUnitTestOutput::printFailure
+//                                 does `new TestFailure(failure)`, i.e. recording the failure allocates through operator new - in
+//                                 thread-safe mode through the locked wrapper, on the thread that raised the report.  A reporter that
+//                                 records the failure while it still holds the detector's non-recursive mutex blocks itself for
+//                                 ever: `stalled` (watchdog, 2 s in this op).  Extra observation `recorded <n>` = <failure> elements
+//                                 the JUnit output wrote for the nested test.
 //   runm <kind>                   like `run`, and WHILE the worker threads run the test's own (main) thread performs the
 //                                 misuse <kind> through the library's real reporter (failWith -> longjmp out of the locked
 //                                 wrapper); the workers must finish (watchdog: `stalled` after 6 s without progress)
@@ -49,6 +56,9 @@
 #include "CppUTest/MemoryLeakDetector.h"
 #include "CppUTest/PlatformSpecificFunctions.h"
 #include "CppUTest/TestHarness_c.h"
+#include "CppUTest/JUnitTestOutput.h"
+#include "CppUTest/TestResult.h"
+#include "CppUTest/TestPlugin.h"
 #include <pthread.h>
 #include <sched.h>
 #include <time.h>
@@ -91,6 +101,7 @@ std::atomic<int> g_go(0);
 std::atomic<long> g_progress(0);    // bumped by every operation of every thread; watched by the watchdog thread
 std::atomic<long> g_locks(0), g_unlocks(0), g_inside(0), g_overlap(0), g_unlocked(0), g_reports(0), g_pattern(0), g_stuck(0);
 std::atomic<int> g_concurrent(0);
+std::atomic<int> g_short_deadline(0);   // `misuse <kind> junit`: only the main thread runs; 2 s without progress = blocked for ever
 std::atomic<int> g_count_only(0);   // main thread: count reports instead of raising them (cleanup sweep)
 bool g_on = false;
 unsigned long g_seed = 1;
@@ -291,6 +302,46 @@ void* probe(void*) {
     g_probe_done.store(1, std::memory_order_release);
     return 0;
 }
+
+// the NEXT allocation after a misuse report, in a helper thread, under a 2 second deadline
+void probe_next_allocation() {
+    g_probe_done.store(0);
+    pthread_t th;
+    pthread_create(&th, 0, probe, 0);
+    bool done = false;
+    for (int k = 0; k < 2000 && !done; k++) {
+        usleep(1000);
+        g_progress.fetch_add(1, std::memory_order_relaxed);
+        done = g_probe_done.load(std::memory_order_acquire) == 1;
+    }
+    if (!done) {
+        vh::emit("next hang");
+        fflush(stdout); fflush(stderr);
+        _exit(0);               // the lock is held for ever: nothing after this can run
+    }
+    pthread_join(th, 0);
+}
+
+// The real JUnit output; only the three file seams are stubbed.  printCurrentTestStarted / printFailure /
+// printCurrentGroupEnded are the library's: they allocate and release result nodes and the copy of the failure
+// through operator new / delete, i.e. through whatever overloads are switched on.
+class QuietJUnitOutput : public JUnitTestOutput {
+public:
+    long failures_written;
+    QuietJUnitOutput() : failures_written(0) {}
+protected:
+    virtual void openFileForWrite(const SimpleString&) CPPUTEST_OVERRIDE {}
+    virtual void writeToFile(const SimpleString& buffer) CPPUTEST_OVERRIDE {
+        for (const char* p = strstr(buffer.asCharString(), "<failure"); p; p = strstr(p + 1, "<failure")) failures_written++;
+    }
+    virtual void closeFile() CPPUTEST_OVERRIDE {}
+};
+
+class MisuseFunction : public ExecFunction {
+public:
+    int kind;
+    virtual void exec() CPPUTEST_OVERRIDE { do_misuse(&kind); }
+};
 
 const vh::Case* g_case = 0;
 } // namespace
@@ -535,6 +586,45 @@ void body() {
             vh::emit("outstanding %ld", outstanding);
             vh::emit("reports %ld", g_reports.load());
         }
+        else if (w[0] == "misuse" && w.size() == 3 && w[2] == "junit") {
+            int kind = M_NONE;
+            for (int k = 0; k < M_NONE; k++) if (w[1] == MISUSE_NAMES[k]) kind = k;
+            if (kind == M_NONE) { vh::emit("> skip"); continue; }
+            vh::emit_op(c.raw[i]);
+            g_misuse_returned = 0;
+            long before = outstanding_now();
+            long recorded = 0;
+            g_short_deadline.store(1);
+            g_progress.fetch_add(1, std::memory_order_relaxed);
+            {
+                QuietJUnitOutput out;
+                TestResult res(out);
+                ExecFunctionTestShell shell;
+                MisuseFunction fn;
+                fn.kind = kind;
+                shell.testFunction_ = &fn;
+                res.testsStarted();
+                res.currentGroupStarted(&shell);
+                res.currentTestStarted(&shell);
+                g_locks = 0; g_unlocks = 0;
+                shell.runOneTest(NullTestPlugin::instance(), res);     // the report leaves do_misuse by longjmp into Utest::run
+                vh::emit("reported %lu", (unsigned long) res.getFailureCount());
+                vh::emit("left-by-jump %d", g_misuse_returned ? 0 : 1);
+                vh::emit("lockstate %s", g_locks.load() == g_unlocks.load() ? "free" : g_locks.load() > g_unlocks.load() ? "held" : "over-released");
+                probe_next_allocation();
+                vh::emit("next done");
+                res.currentTestEnded(&shell);
+                res.currentGroupEnded(&shell);                         // writes the (stubbed) file, deletes nodes and the failure copy
+                res.testsEnded();
+                recorded = out.failures_written;
+                shell.testFunction_ = 0;
+            }
+            g_short_deadline.store(0);
+            long after = outstanding_now();
+            outstanding += after - before;
+            vh::emit("recorded %ld", recorded);
+            vh::emit("outstanding %ld", outstanding);
+        }
         else if (w[0] == "misuse" && w.size() == 2) {
             int kind = M_NONE;
             for (int k = 0; k < M_NONE; k++) if (w[1] == MISUSE_NAMES[k]) kind = k;
@@ -548,22 +638,7 @@ void body() {
             vh::emit("reported %lu", (unsigned long) (vh::g_fixture->getFailureCount() - failures_before));
             vh::emit("left-by-jump %d", jumped);
             vh::emit("lockstate %s", g_locks.load() == g_unlocks.load() ? "free" : g_locks.load() > g_unlocks.load() ? "held" : "over-released");
-            // the NEXT allocation, in a helper thread, under a 2 second deadline
-            g_probe_done.store(0);
-            pthread_t th;
-            pthread_create(&th, 0, probe, 0);
-            bool done = false;
-            for (int k = 0; k < 2000 && !done; k++) {
-                usleep(1000);
-                g_progress.fetch_add(1, std::memory_order_relaxed);
-                done = g_probe_done.load(std::memory_order_acquire) == 1;
-            }
-            if (!done) {
-                vh::emit("next hang");
-                fflush(stdout); fflush(stderr);
-                _exit(0);               // the lock is held for ever: nothing after this can run
-            }
-            pthread_join(th, 0);
+            probe_next_allocation();
             long after = outstanding_now();
             outstanding += after - before;
             vh::emit("next done");
@@ -602,7 +677,7 @@ void* watchdog(void*) {
         long p = g_progress.load(std::memory_order_relaxed);
         if (p != last) { last = p; idle_ms = 0; continue; }
         idle_ms += 50;
-        if (idle_ms >= 6000) {
+        if (idle_ms >= (g_short_deadline.load(std::memory_order_relaxed) ? 2000 : 6000)) {
             static const char msg[] = "stalled\n";
             ssize_t r = write(1, msg, sizeof(msg) - 1); (void) r;
             _exit(0);
